@@ -9,7 +9,9 @@ for b in $BINS; do
   cargo build --release -p "$b"
 done
 cargo build --profile nodebug -p vp_sample
-if [ -d ../fuzz ] && [ -f ../fuzz/Cargo.toml ]; then
-  (cd ../fuzz && cargo +nightly fuzz build 2>&1 | tail -3) || echo "fuzz build failed (thorough tier of fuzz-backed checks will be inconclusive)"
+# the libFuzzer targets are only used by the thorough tier; build them in the background-friendly way:
+# a failure here makes the fuzz part of a thorough run inconclusive, it never breaks setup
+if [ -f ../fuzz/Cargo.toml ] && [ "${VERIF_SKIP_FUZZ_BUILD:-0}" != "1" ]; then
+  (RUSTFLAGS="--cfg rustaudio_dasp_verif" cargo +nightly fuzz build --fuzz-dir ../fuzz 2>&1 | tail -3) || echo "fuzz build failed (thorough tier of fuzz-backed checks will be inconclusive)"
 fi
 echo setup-ok
